@@ -47,6 +47,8 @@ def fix_text_boundaries(items):
     for i, it in enumerate(out):
         if it["k"] == "text":
             s = it["s"]
+            while "{{" in s or "$t(" in s:      # merging adjacent texts can create a delimiter
+                s = s.replace("{{", "{ ").replace("$t(", "$ t(")
             while s.endswith("{") or s.endswith("$") or s.endswith("$t"):
                 s = s[:-1] if not s.endswith("$t") else s[:-2]
             out[i] = {"k": "text", "s": s}
